@@ -194,7 +194,30 @@ class RecordRun:
                 run.sink.append(bytes(b))
         total = sum(self._size(i) for i in range(nrecords))
         self.expected_total = total
-        d = self.dst.writeToFile(Sink(), total)
+        if self.pausing:
+            # a consumer that exerts back-pressure: it asks its producer (the connection) to pause from inside every
+            # write() and lets it go on at the next step of the run - records that arrived in the same read wait meanwhile
+            from zope.interface import implementer
+            from twisted.internet.interfaces import IConsumer
+
+            @implementer(IConsumer)
+            class PausingSink:
+                producer = None
+
+                def registerProducer(self, producer, streaming):
+                    self.producer = producer
+
+                def unregisterProducer(self):
+                    self.producer = None
+
+                def write(self, b):
+                    run.sink.append(bytes(b))
+                    if self.producer is not None:
+                        self.producer.pauseProducing()
+                        run.paused_by = self.producer
+            d = self.dst.connectConsumer(PausingSink(), total)
+        else:
+            d = self.dst.writeToFile(Sink(), total)
         if d is not None:
             d.addCallbacks(lambda n: (setattr(self, "consumer_done", "ok"), setattr(self, "consumer_bytes", n)),
                            lambda f: setattr(self, "consumer_done", "err"))
@@ -202,10 +225,22 @@ class RecordRun:
     def _size(self, i):
         return self.sizes[i % len(self.sizes)]
 
+    pausing = False
+    paused_by = None
+
+    def _resume(self):
+        p, self.paused_by = self.paused_by, None
+        if p is not None:
+            try:
+                p.resumeProducing()
+            except Exception as e:
+                self.internal.append("resumeProducing raised %s: %s" % (type(e).__name__, str(e)[:60]))
+
     # -- the model's actions
     def do(self, act):
         self.schedule.append(act)
         a = act[0]
+        self._resume()
         if a in ("Cut", "Lose"):
             self.env_closed = True
         if self.slow and a == "Recv" and len(self.schedule) % 2 == 0:
@@ -361,6 +396,7 @@ class RecordRun:
             self.got = [self._ident(b, k) for k, b in enumerate(self.sink)]
 
     def finish(self):
+        self._resume()
         # whatever was held back for coalescing is flushed (it was sent; only its timing was the adversary's)
         if self.held:
             if self.dst.transport.connected and (self.async_close or not self.dst.transport.disconnecting):
@@ -370,6 +406,7 @@ class RecordRun:
                     if not self.async_close:
                         self._receiver_dropped()
             self.held = b""
+        self._resume()
         self._collect()
         state = self.dst.state
         t = self.dst.transport
@@ -392,7 +429,7 @@ class RecordRun:
                "clean": self.at_tamper < 0 and [f for f, _ in self.wire] == self.honest[self.consumed:], "inflight": len(self.wire),
                "internal": self.internal, "direction": self.direction, "chunking": self.chunking,
                "consumer": self.consumer_mode, "loopReader": self.loop_reader, "rearmed": self.rearmed,
-               "slow": self.slow, "envClosed": bool(self.env_closed)}
+               "slow": self.slow, "envClosed": bool(self.env_closed), "pausingConsumer": bool(self.pausing)}
         return rec
 
 
@@ -490,6 +527,7 @@ def run_c06(prop, tier):
                 run = RecordRun(tid, direction, chunking, cm, random.Random(seed * 7919 + tid), sizes, slow=slow)
                 run.async_close = (tid % 3 == 0)
                 run.loop_reader = (not cm) and (tid % 4 < 2)
+                run.pausing = cm and (tid % 2 == 0)
                 if cm:
                     run.attach_consumer(nrec)
                 try:
@@ -530,7 +568,7 @@ def run_c06(prop, tier):
                 v.violation({"clause": bad[0], "manipulation": manip[0] if manip else "none", "mode": "consumer" if rec["consumer"] else "queue"},
                             "%s fails on a real Transit connection (%s, chunking %s): %s" % (",".join(bad), rec["direction"], rec["chunking"],
                                                                                              json.dumps({k: rec[k] for k in ("sent", "got", "atTamper", "state", "pendingReads", "consumerDone")})),
-                            {"schedule": run.schedule, "direction": rec["direction"], "chunking": rec["chunking"], "sizes": run.sizes, "async_close": run.async_close, "loop_reader": run.loop_reader, "slow": run.slow,
+                            {"schedule": run.schedule, "direction": rec["direction"], "chunking": rec["chunking"], "sizes": run.sizes, "async_close": run.async_close, "loop_reader": run.loop_reader, "slow": run.slow, "pausing_consumer": run.pausing,
                              "consumer": rec["consumer"], "observation": rec})
         cov.update(states=states, transitions=transitions, traces_validated_against_impl=len(records), evaluations=len(records),
                    distinct_nontrivial=len(nontrivial), failing_runs=failing,
@@ -562,6 +600,7 @@ def replay(prop, path):
     run_ = RecordRun(1, d["direction"], d["chunking"], d["consumer"], random.Random(1), d["sizes"], slow=bool(d.get("slow")))
     run_.async_close = bool(d.get("async_close"))
     run_.loop_reader = bool(d.get("loop_reader"))
+    run_.pausing = bool(d.get("pausing_consumer"))
     if d["consumer"]:
         run_.attach_consumer(4)
     for a in d["schedule"]:
